@@ -549,11 +549,12 @@ def _r(x, n=300):
     return s if len(s) <= n else s[:n] + '...'
 
 
-def check_form(case, form, text, lines, classes, stats):
-    """Parse `text` in one input form and compare with the model.  Returns a list of (key, msg)."""
+def check_form(case, form, text, lines, classes, stats, input_lines=None):
+    """Parse `text` in one input form and compare with the model.  Returns a list of (key, msg).
+    `input_lines` (classifier use only) overrides how the text is cut into lines for the line-based forms."""
     from debian import changelog as dc
     out = []
-    data = build_input(form, text, lines)
+    data = build_input(form, text, lines if input_lines is None else input_lines)
     try:
         with warnings.catch_warnings(record=True) as caught:
             warnings.simplefilter('always')
@@ -618,20 +619,9 @@ def check_form(case, form, text, lines, classes, stats):
     return out
 
 
-def _neutralised(case):
-    """Same model with every non-LF line boundary in change text replaced by a letter."""
-    c = dict(case)
-    c['blocks'] = []
-    for b in case['blocks']:
-        b = dict(b)
-        body = []
-        for l in b['body']:
-            for ch in NON_LF_BREAKS:
-                l = l.replace(ch, 'X')
-            body.append(l)
-        b['body'] = body
-        c['blocks'].append(b)
-    return c
+def _unformed(res):
+    """Violation list without the '[form] ' message prefix."""
+    return [(k, m.split('] ', 1)[-1]) for k, m in res]
 
 
 def evaluate(case, stats=None):
@@ -646,10 +636,13 @@ def evaluate(case, stats=None):
             stats['form:' + form] += 1
         res = check_form(case, form, text, lines, classes, stats)
         if res and has_break and form in SPLITTING_FORMS:
-            # mechanism test: does the disagreement vanish when the exotic line boundaries are plain letters?
-            c2 = _neutralised(case)
-            t2, l2, k2 = render(c2)
-            if not check_form(c2, form, t2, l2, k2, None):
+            # mechanism test: the disagreement is "the library's own line splitting cut a change line at a
+            # non-LF boundary" iff the very same text passes when handed over already split at LF only, and
+            # what was observed is exactly what the library does with the text pre-cut at every Unicode line
+            # boundary (str.splitlines) - same complaints, same lines.
+            as_cut = check_form(case, 'lines', text, lines, classes, None, input_lines=text.splitlines())
+            if (not check_form(case, 'lines', text, lines, classes, None)
+                    and _unformed(as_cut) == _unformed(res)):
                 res = [('text-input-split-at-non-LF-line-boundary',
                         '[%s] change text containing U+000C/U+0085/U+2028/U+2029 is cut into several lines when the '
                         'changelog is given as one str/bytes (not when given as lines or a file): %s' % (form, res[0][1]))]
